@@ -22,10 +22,10 @@ fn spec(t: Tier) -> Spec {
     Spec {
         id: "C10",
         level: "fault_enumeration",
-        rule: format!("every ordered forest with <= {} nodes over leaves (file, empty directory, link to an outside file, link to an outside directory holding a file (one outside directory per link), dangling link) and directories, as the content of r/; (sibling names a, b., c, d.., ..., f: some end in a dot) x {} expressions before -delete ({:?}); x -P -H -L; x starting points r | lr (a link to r) | r s | s r (s a second fixed tree, so that a failed removal can lie under a starting point that is not the last); for the starting point r also x depth bounds -maxdepth 1 | -mindepth 1 | -mindepth 1 -maxdepth 1 | -maxdepth 2 (entries outside the bounds are neither matched nor removed; a directory at the depth limit still holds its children, so its removal must fail). Removal faults arise by construction (a matched directory with an unmatched child: rmdir fails) — every placement the expressions and trees produce is enumerated. For each case the tree is built twice: (1) the real find runs `-depth EXPR -print` and the output must be the reference list of matched entries in depth-first order; (2) on the rebuilt tree the real find runs `EXPR -delete -printf 'D %p' -o -printf 'N %p'`: the D lines must be exactly the removals the reference simulation predicts, in order (a directory only when all its children were removed; a link itself, never its target), N lines everything else incl. failed removals, exit status and a diagnostic iff a removal failed, walk not stopped; (3) the snapshot (path, type, mode, size, link target, content hash, link count) of the whole sandbox after the run must equal the predicted one: nothing else changed inside or outside. Every tree is also run with `-delete -delete`: the second removal of an entry that is already gone must fail (diagnostic, -delete false, exit != 0). non-trivial = case in which at least one entry is matched and at least one is not, or a removal fails", max_nodes(t), EXPRS.len(), EXPRS),
+        rule: format!("every ordered forest with <= {} nodes over leaves (file, empty directory, link to an outside file, link to an outside directory holding a file (one outside directory per link), dangling link) and directories, as the content of r/; (sibling names a, b., c, d.., ..., f: some end in a dot) x {} expressions before -delete ({:?}); x -P -H -L; x starting points r | lr (a link to r) | r s | s r (s a second fixed tree, so that a failed removal can lie under a starting point that is not the last); for the starting point r also x depth bounds -maxdepth 1 | -mindepth 1 | -mindepth 1 -maxdepth 1 | -maxdepth 2 (entries outside the bounds are neither matched nor removed; a directory at the depth limit still holds its children, so its removal must fail). Removal faults arise by construction (a matched directory with an unmatched child: rmdir fails) — every placement the expressions and trees produce is enumerated. For each case the tree is built twice: (1) the real find runs `-depth EXPR -print` and the output must be the reference list of matched entries in depth-first order; (2) on the rebuilt tree the real find runs `EXPR -delete -printf 'D %p' -o -printf 'N %p'`: the D lines must be exactly the removals the reference simulation predicts, in order (a directory only when all its children were removed; a link itself, never its target), N lines everything else incl. failed removals, exit status and a diagnostic iff a removal failed, walk not stopped; (3) the snapshot (path, type, mode, size, link target, content hash, link count) of the whole sandbox after the run must equal the predicted one: nothing else changed inside or outside. For the starting point r under -L the follow mode is also given as the word -follow (before the tests, and after -delete). Every tree is also walked from inside r/ with the starting point spelled ., ./, ./., .//, ././ (the current directory cannot be removed through such a name: `.` is passed over silently, every other spelling must fail with a diagnostic, -delete false and a non-zero status; everything below is removed as predicted). Every tree is also run with `-delete -delete`: the second removal of an entry that is already gone must fail (diagnostic, -delete false, exit != 0). non-trivial = case in which at least one entry is matched and at least one is not, or a removal fails", max_nodes(t), EXPRS.len(), EXPRS),
         bound: json!({"max_nodes": max_nodes(t), "expressions": EXPRS, "follow": ["-P","-H","-L"], "roots": ["r","lr","r s","s r"]}),
         assumptions: vec![
-            "-empty (whose truth changes as the walk deletes) and a starting point spelled '.' are outside the check".into(),
+            "-empty (whose truth changes as the walk deletes) is outside the check".into(),
             "under -L the entries reached through a followed directory link are matched entries like any other (the -depth -print twin lists them) and are removed; the link itself is removed, not the directory it points to".into(),
         ],
         shards: 0,
@@ -192,20 +192,29 @@ fn lines(b: &[u8]) -> Vec<String> {
 
 /// returns Some((signature, detail)) on violation
 fn one_case(ctx: &mut Ctx, forest: &[Shape], root: &str, follow: Follow, e: &str, b: Bounds) -> Option<(String, String)> {
+    one_case_w(ctx, forest, root, follow, e, b, None)
+}
+
+/// `word`: the follow mode is given as the word -follow in the expression (then `follow` must be L):
+/// Some(false) = before the tests, Some(true) = after -delete.
+fn one_case_w(ctx: &mut Ctx, forest: &[Shape], root: &str, follow: Follow, e: &str, b: Bounds, word: Option<bool>) -> Option<(String, String)> {
     let fs = c10_fs(forest);
     if let Err(err) = build(ctx, &fs) {
         ctx.rep.machinery(format!("tree builder: {err}"));
         return None;
     }
     let p = plan(&fs, root, follow, e, b);
-    let btag = if b == NO_BOUNDS { String::new() } else { format!(" {}", bounds_args(b).join(" ")) };
+    let btag = format!("{}{}", if b == NO_BOUNDS { String::new() } else { format!(" {}", bounds_args(b).join(" ")) }, match word { None => "", Some(false) => " -follow first", Some(true) => " -follow after -delete" });
     let root_tag = format!("{root}{btag}");
     let tag = format!("{} root={} expr={}", follow.flag(), root_tag, e);
     let ea = expr_args(e);
     // (1) twin: -depth EXPR -print
-    let mut a1: Vec<&str> = vec![follow.flag()];
+    let mut a1: Vec<&str> = if word.is_some() { vec![] } else { vec![follow.flag()] };
     a1.extend(root.split(' '));
     a1.push("-sorted");
+    if word.is_some() {
+        a1.push("-follow");
+    }
     a1.extend(bounds_args(b));
     a1.push("-depth");
     if e == "prune-a-or-true" {
@@ -230,16 +239,23 @@ fn one_case(ctx: &mut Ctx, forest: &[Shape], root: &str, follow: Follow, e: &str
         return Some((format!("C10 reference and `-depth EXPR -print` disagree on the matched entries [{} root={}]", follow.flag(), root_tag), format!("tree {} ; find {:?}\nreference {:?}\nactual    {:?}", fs.describe(0), a1, want_twin, lines(&twin.out))));
     }
     // (2) the deletion run on the identical tree
-    let mut a2: Vec<&str> = vec![follow.flag()];
+    let mut a2: Vec<&str> = if word.is_some() { vec![] } else { vec![follow.flag()] };
     a2.extend(root.split(' '));
     a2.push("-sorted");
     a2.extend(bounds_args(b));
+    if word == Some(false) {
+        a2.push("-follow");
+    }
     if e == "prune-a-or-true" {
         let pa: &'static str = Box::leak(format!("{}/a", root_of_r(root)).into_boxed_str());
         a2.extend(["(", "-path", pa, "-prune", "-printf", "N %p\\n", "-o", "-true", "-delete", "-printf", "D %p\\n", "-o", "-printf", "N %p\\n", ")"]);
     } else {
         a2.extend(ea.iter());
         a2.extend(["-delete", "-printf", "D %p\\n", "-o", "-printf", "N %p\\n"]);
+    }
+    if word == Some(true) {
+        // (after the last action: `... -printf 'N %p\n' -follow`, an always-true primary)
+        a2.push("-follow");
     }
     let got = run_find(&a2);
     let after = sandbox::snapshot(&ctx.sbx);
@@ -349,6 +365,68 @@ fn twice_case(ctx: &mut Ctx, forest: &[Shape]) -> Option<(String, String)> {
     None
 }
 
+/// The starting point is the current directory, spelled `.`, `./`, `./.`, `.//` or `././` (find
+/// runs inside r/): everything below is removed as predicted; the directory itself cannot be
+/// removed through such a name — `.` is passed over silently (as GNU find does), every other
+/// spelling must fail loudly (diagnostic, -delete false, exit status != 0).
+fn dot_case(ctx: &mut Ctx, forest: &[Shape], spelling: &str, e: &str) -> Option<(String, String)> {
+    let fs = c10_fs(forest);
+    if let Err(err) = build(ctx, &fs) {
+        ctx.rep.machinery(format!("tree builder: {err}"));
+        return None;
+    }
+    let p = plan(&fs, "r", Follow::P, e, NO_BOUNDS);
+    let respell = |path: &str| -> String {
+        match path.strip_prefix("r/") {
+            Some(rest) => if spelling.ends_with('/') { format!("{spelling}{rest}") } else { format!("{spelling}/{rest}") },
+            None => spelling.to_string(),
+        }
+    };
+    let r_node = fs.child(0, "r").unwrap();
+    let before = sandbox::snapshot(&ctx.sbx);
+    std::env::set_current_dir(ctx.sbx.join("r")).unwrap();
+    let mut args: Vec<&str> = vec![spelling, "-sorted"];
+    args.extend(expr_args(e));
+    args.extend(["-delete", "-printf", "D %p\\n", "-o", "-printf", "N %p\\n"]);
+    let got = run_find(&args);
+    std::env::set_current_dir(&ctx.sbx).unwrap();
+    let after = sandbox::snapshot(&ctx.sbx);
+    ctx.rep.evaluations += 1;
+    ctx.rep.nontrivial += 1;
+    ctx.rep.count("current_directory_as_starting_point", 1);
+    if got.panicked() {
+        return Some((format!("C10 panic [starting point {spelling}]"), got.brief()));
+    }
+    let root_matched = p.attempts.iter().any(|a| a.0 == "r");
+    let detail = format!("tree {} ; (in r/) find {:?}\nstdout {:?}\nstatus {:?} stderr {:?}", fs.describe(0), args, lines(&got.out), got.code, String::from_utf8_lossy(&got.err));
+    // the tree: as predicted, except that r itself always stays
+    let mut removed = p.removed_nodes.clone();
+    removed.remove(&r_node);
+    let want_after = predicted_snapshot(&before, &fs, &Plan { attempts: vec![], visited: vec![], removed_nodes: removed });
+    if after != want_after {
+        return Some((format!("C10 wrong entries removed [starting point {spelling}]"), detail));
+    }
+    let out = lines(&got.out);
+    let d_got: Vec<String> = out.iter().filter_map(|l| l.strip_prefix("D ").map(String::from)).collect();
+    let mut d_want: Vec<String> = p.attempts.iter().filter(|a| a.1 && a.0 != "r").map(|a| respell(&a.0)).collect();
+    let root_fails_loudly = root_matched && spelling != ".";
+    if root_matched && spelling == "." {
+        d_want.push(".".into());
+    }
+    if d_got != d_want {
+        return Some((format!("C10 -delete true/false does not match the removals that happened [starting point {spelling}]"), format!("{detail}\nD lines expected {:?}", d_want)));
+    }
+    let inner_failures = p.attempts.iter().filter(|a| !a.1 && a.0 != "r").count();
+    let must_fail = root_fails_loudly || inner_failures > 0;
+    if must_fail && (got.code == Ok(0) || got.err.is_empty()) {
+        return Some((format!("C10 the current directory spelled {spelling} cannot be removed, yet no diagnostic / exit status 0"), detail));
+    }
+    if !must_fail && got.code != Ok(0) {
+        return Some((format!("C10 non-zero exit status although every removal succeeded [starting point {spelling}]"), detail));
+    }
+    None
+}
+
 fn run(ctx: &mut Ctx) {
     let labels = [Leaf::File, Leaf::EmptyDir, Leaf::LnFile, Leaf::LnDir, Leaf::LnDangling];
     for n in 0..=max_nodes(ctx.tier) {
@@ -365,11 +443,26 @@ fn run(ctx: &mut Ctx) {
             if let Some((sig, detail)) = twice_case(ctx, &forest) {
                 ctx.rep.violation(&sig, detail, json!({"prop":"C10","forest":enc,"twice":true}));
             }
+            for spelling in [".", "./", "./.", ".//", "././"] {
+                for e in ["always", "type-f", "type-d"] {
+                    if let Some((sig, detail)) = dot_case(ctx, &forest, spelling, e) {
+                        ctx.rep.violation(&sig, detail, json!({"prop":"C10","forest":enc,"dot":spelling,"expr":e}));
+                    }
+                }
+            }
             for root in ["r", "lr", "r s", "s r"] {
                 for follow in [Follow::P, Follow::H, Follow::L] {
                     for e in EXPRS {
                         // depth bounds other than the default only for the starting point r
                         let bounds: Vec<Bounds> = if root == "r" { std::iter::once(NO_BOUNDS).chain(BOUNDS).collect() } else { vec![NO_BOUNDS] };
+                        // the follow mode given as the word -follow, before the tests and after -delete
+                        if root == "r" && follow == Follow::L {
+                            for word in [false, true] {
+                                if let Some((sig, detail)) = one_case_w(ctx, &forest, root, follow, e, NO_BOUNDS, Some(word)) {
+                                    ctx.rep.violation(&sig, detail, json!({"prop":"C10","forest":enc,"root":root,"follow":"-L","expr":e,"word":word}));
+                                }
+                            }
+                        }
                         for b in bounds {
                             if let Some((sig, detail)) = one_case(ctx, &forest, root, follow, e, b) {
                                 // determinism
@@ -392,6 +485,17 @@ fn run(ctx: &mut Ctx) {
 
 fn replay(case: &Value, ctx: &mut Ctx) -> Option<String> {
     let forest = tree::decode_forest(case["forest"].as_str()?)?;
+    if let Some(sp) = case["dot"].as_str() {
+        let sp: &'static str = [".", "./", "./.", ".//", "././"].into_iter().find(|x| *x == sp)?;
+        let e = EXPRS.iter().find(|x| Some(**x) == case["expr"].as_str())?;
+        return match dot_case(ctx, &forest, sp, e) {
+            Some((sig, detail)) => {
+                ctx.rep.violation(&sig, detail, case.clone());
+                Some(sig)
+            }
+            None => None,
+        };
+    }
     if case["twice"].as_bool().unwrap_or(false) {
         return match twice_case(ctx, &forest) {
             Some((sig, detail)) => {
@@ -412,7 +516,8 @@ fn replay(case: &Value, ctx: &mut Ctx) -> Option<String> {
         Some(x) if x < 99 => x as usize,
         _ => usize::MAX,
     });
-    match one_case(ctx, &forest, root, follow, e, b) {
+    let word = case["word"].as_bool();
+    match one_case_w(ctx, &forest, root, follow, e, b, word) {
         Some((sig, detail)) => {
             ctx.rep.violation(&sig, detail, case.clone());
             Some(sig)
